@@ -81,7 +81,8 @@ const std::vector<std::string> XSNAMES = {"0", "3*(+1,-1,+1,...)", "(1..n)*3/n"}
 const std::vector<std::string> UNAMES  = {"e1", "-en", "ones/sqrt(n)", "(+1,-1,...)/sqrt(n)"};
 const std::vector<double>      EPSS    = {1e-3, 1e-5, 1e-8};
 const std::vector<std::string> BSOLVERS = {"rqb", "fpba1", "fpba2"};
-const std::vector<std::string> PSETS    = {"default", "csearch-alt(m1m2=(0.1,0.5),m3=0.5,m4=0.5,interpol=0.5,extrapol=2)",
+const std::vector<std::string> PSETS    = {"default", "cutting-plane(m4=100: frequent cutting-plane steps)",
+                                           "csearch-alt(m1m2=(0.1,0.5),m3=0.5,m4=0.5,interpol=0.5,extrapol=2)",
                                            "prox-alt(miu0_range=(1,1e3),min_dot_nuv=1e-6)"};
 constexpr double               RADIUS  = 4.0;  ///< ||x0 - x*||_2
 constexpr double               ELL_R   = 10.0; ///< initial radius of the ellipsoid method (>= RADIUS)
@@ -384,13 +385,17 @@ rsolver_t configure(const case_t& c)
             solver->parameter(p + "::bundle::max_size") = static_cast<int64_t>(c.bsize);
             if (c.pset == 1)
             {
+                solver->parameter(p + "::csearch::m4") = 100.0;
+            }
+            else if (c.pset == 2)
+            {
                 solver->parameter(p + "::csearch::m1m2")     = std::make_tuple(0.1, 0.5);
                 solver->parameter(p + "::csearch::m3")       = 0.5;
                 solver->parameter(p + "::csearch::m4")       = 0.5;
                 solver->parameter(p + "::csearch::interpol") = 0.5;
                 solver->parameter(p + "::csearch::extrapol") = 2.0;
             }
-            else if (c.pset == 2)
+            else if (c.pset == 3)
             {
                 solver->parameter(p + "::prox::miu0_range")  = std::make_tuple(1.0, 1e3);
                 solver->parameter(p + "::prox::min_dot_nuv") = 1e-6;
@@ -751,11 +756,9 @@ int main(int argc, char** argv)
     const bool ell = stage == "ellipsoid";
     report_t   r("c03/" + stage, args);
 
-    // Determinism: bundle_t::delete_largest reads m_alphas(2), a slot that is never written when bundle::max_size = 2
-    // (src/solver/bundle.cpp:105), so those runs depend on what malloc happens to return. glibc's M_PERTURB gives fresh
-    // heap memory a fixed content: byte 0xAA.. = a tiny negative double (the same branch as zero-filled fresh pages:
-    // every cut is dropped and only the aggregate is kept). C03_PERTURB=128 (content 0x7F.. = 1.4e306) reproduces the
-    // other branch: nothing is dropped and bundle_t::append writes past the end of the bundle (bundle.cpp:148).
+    // Determinism: runs must not depend on what malloc happens to return (bundle_t::delete_largest used to read a slot that
+    // was never written when bundle::max_size = 2, repaired in d147349). glibc's M_PERTURB gives fresh heap memory a fixed
+    // content; C03_PERTURB selects another byte for experiments.
     const auto* const perturb_env = std::getenv("C03_PERTURB");
     const int         perturb     = perturb_env != nullptr ? std::atoi(perturb_env) : 0x55;
     mallopt(M_PERTURB, perturb);
@@ -763,7 +766,7 @@ int main(int argc, char** argv)
 
     // tier-dependent alphabets (overridable for experiments)
     const auto ns     = parse_list(args.get("ns", args.thorough() ? "1,2,3,4,6,8" : "1,2,3,6"));
-    const auto bsizes = parse_list(args.get("bsizes", args.thorough() ? "2,5,20,100" : "2,5,20"));
+    const auto bsizes = parse_list(args.get("bsizes", args.thorough() ? "2,3,4,5,20,100" : "2,3,4,5,20"));
     const auto mevals = parse_list(args.get("max_evals", ell ? "100,2000,20000" : (args.thorough() ? "100,2000,20000" : "100,2000")));
     // (epsilon, max_evals) pairs. Bundle stage: the 20000-evaluation budget is combined with epsilon = 1e-8 only (every
     // bundle iteration solves a QP of the bundle size; a run that has not converged at 1e-3 / 1e-5 within 2000
@@ -784,7 +787,7 @@ int main(int argc, char** argv)
             }
         }
     }
-    const auto npsets = static_cast<uint64_t>(args.geti("psets", args.thorough() ? 3 : 1));
+    const auto npsets = static_cast<uint64_t>(args.geti("psets", args.thorough() ? 4 : 2));
     const bool trace  = std::getenv("C03_TRACE") != nullptr;
 
     struct sigaction sa{};
